@@ -886,6 +886,40 @@ type c15Split struct {
 	human   bool
 }
 
+// c15TailsLost reports whether got is the stream bodies joined by LF with the
+// last one or two bytes missing from at least one body whose length leaves a
+// final group of two or three bytes (len%4 >= 2), and nothing else changed.
+func c15TailsLost(got []byte, bodies [][]byte, lost int) bool {
+	if len(bodies) == 0 {
+		return len(got) == 0 && lost > 0
+	}
+	b := bodies[0]
+	last := len(bodies) == 1
+	for cut := 0; cut <= 2; cut++ {
+		if cut > 0 && (len(b)%4 < 2 || cut >= len(b)%4) {
+			break
+		}
+		want := b[:len(b)-cut]
+		if !bytes.HasPrefix(got, want) {
+			continue
+		}
+		rest := got[len(want):]
+		if last {
+			if len(rest) == 0 && lost+cut > 0 {
+				return true
+			}
+			continue
+		}
+		if len(rest) == 0 || rest[0] != '\n' {
+			continue
+		}
+		if c15TailsLost(rest[1:], bodies[1:], lost+cut) {
+			return true
+		}
+	}
+	return false
+}
+
 func c15SplitFilterName(s *c15Split) string {
 	if s.route == "encode" {
 		if s.human {
@@ -970,7 +1004,7 @@ func c15WriteSplitFile(ops []content.Operator, sp *c15Split) (file []byte, bodie
 			refs[i] = ref
 		}
 		d := pdf.Dict{"Type": pdf.Name("Page"), "Parent": pagesRef,
-			"MediaBox": pdf.Array{pdf.Integer(0), pdf.Integer(0), pdf.Integer(200), pdf.Integer(200)},
+			"MediaBox":  pdf.Array{pdf.Integer(0), pdf.Integer(0), pdf.Integer(200), pdf.Integer(200)},
 			"Resources": pdf.Dict{}}
 		if nseg == 1 {
 			d["Contents"] = refs[0]
@@ -1905,7 +1939,9 @@ func c15SequenceCase(c *kit.Case) {
 				c.R.Count("inline_images_ascii_filter", 1)
 			}
 			for k := range dict {
-				c.R.Seen("inline-image-keys", string(k))
+				if !strings.HasPrefix(string(k), "X") {
+					c.R.Seen("inline-image-keys", string(k))
+				}
 			}
 			c.Max("inline_image_data_bytes", float64(len(data)), "")
 		}
@@ -1921,7 +1957,7 @@ func c15SequenceCase(c *kit.Case) {
 		c.Violationf("write-error", "writing %s: %v", kit.Trunc(wantCanon, 1000), err)
 		return
 	}
-	if c.Index%16 == 0 {
+	if r.Chance(1, 16) {
 		raw2, err2 := c15Write(c, ops, mode+1)
 		if err2 != nil || !bytes.Equal(raw, raw2) {
 			c.Violationf("writer-paths-differ", "Operator.Format and Operators.RawBytes give different bytes (%v): %s vs %s", err2, kit.Q(raw), kit.Q(raw2))
@@ -1956,7 +1992,8 @@ func c15SequenceCase(c *kit.Case) {
 	}
 
 	// ---- split over several content streams of one page
-	if c.Index%2 != 0 {
+	// (drawn, not derived from the index: cases are dealt to the shards round robin)
+	if r.Bool() {
 		return
 	}
 	sp := &c15Split{route: "encode", version: kit.Pick(r, []pdf.Version{pdf.V1_4, pdf.V1_7, pdf.V2_0}), human: r.Chance(1, 3)}
@@ -2024,7 +2061,14 @@ func c15SequenceCase(c *kit.Case) {
 			detail += fmt.Sprintf("\nPage.RawBytes gives %d bytes, the %d stream bodies joined by LF have %d; first difference at %d: got %s want %s",
 				len(joined), len(bodies), len(want), i, kit.Q(joined[i:min(len(joined), i+40)]), kit.Q(want[i:min(len(want), i+40)]))
 		}
-		c.Violationf(fmt.Sprintf("split/%s/filter=%s/%s/%s", sp.route, c15SplitFilterName(sp), layer, key), "%s\n%s\nunsplit stream: %s", sp, detail, kit.Q(raw))
+		fullKey := fmt.Sprintf("split/%s/filter=%s/%s/%s", sp.route, c15SplitFilterName(sp), layer, key)
+		if layer == "stream-bytes-differ" && c15TailsLost(joined, bodies, 0) {
+			// signature of the ASCII85 decoder defect: the last one or two
+			// bytes of a stream whose length is not a multiple of 4 are
+			// missing, everything else is in place
+			fullKey = fmt.Sprintf("split/%s/filter=%s/stream-tail-lost", sp.route, c15SplitFilterName(sp))
+		}
+		c.Violationf(fullKey, "%s\n%s\nunsplit stream: %s", sp, detail, kit.Q(raw))
 		return
 	}
 	c.R.Count("split_sequences_equal", 1)
